@@ -157,6 +157,38 @@ async fn side_conditions<S: Storage>(cluster: &Cluster<S>, when: &str, out: &mut
     }
 }
 
+#[derive(Clone, Copy, Debug, PartialEq)]
+pub enum Scripted {
+    Flush(usize),
+    Restart(usize),
+    Jump,
+    Down(usize),
+    Back(usize),
+}
+
+impl Scripted {
+    fn text(&self) -> String {
+        match self {
+            Scripted::Flush(n) => format!("flush:{n}"),
+            Scripted::Restart(n) => format!("restart:{n}"),
+            Scripted::Jump => "jump".to_string(),
+            Scripted::Down(n) => format!("down:{n}"),
+            Scripted::Back(n) => format!("back:{n}"),
+        }
+    }
+    fn parse(t: &str) -> Option<Scripted> {
+        let (k, n) = t.split_once(':').map(|(k, n)| (k, n.parse().unwrap_or(0))).unwrap_or((t, 0));
+        Some(match k {
+            "flush" => Scripted::Flush(n),
+            "restart" => Scripted::Restart(n),
+            "jump" => Scripted::Jump,
+            "down" => Scripted::Down(n),
+            "back" => Scripted::Back(n),
+            _ => return None,
+        })
+    }
+}
+
 pub struct ExecCfg {
     /// one more choice point at the start: some node is unreachable (every request to it is
     /// refused) until a chosen later moment; it then learns everything through repair
@@ -170,6 +202,9 @@ pub struct ExecCfg {
     /// forgiveness period), so that later stamps of an origin are more than an hour newer
     /// than earlier ones a lagging or restarted node has yet to learn through repair
     pub time_jumps: bool,
+    /// a sharp driver: events that always happen in the gap after operation i (before the
+    /// explored extra events of that gap)
+    pub script: Vec<Vec<Scripted>>,
     /// minutes by which each node's wall clock reading is ahead when it issues an operation
     pub skew_minutes: Vec<u64>,
     /// concurrency block only: step background tasks one poll at a time for every pair (always
@@ -260,6 +295,16 @@ where
         }
     }
 
+    for ev in cfg.script.first().cloned().unwrap_or_default() {
+        match ev {
+            Scripted::Down(d) => {
+                out.events.push(format!("node{d} is unreachable from the start (scripted)"));
+                datacake_rpc::verif::set_reachable(crate::world::node_addr(d as NodeId + 1), false);
+            },
+            Scripted::Jump => wall.advance(std::time::Duration::from_secs(61 * 60)),
+            _ => {},
+        }
+    }
     for (oi, op) in ops.iter().enumerate() {
         wall.tick();
         let skew = cfg.skew_minutes.get(op.node).copied().unwrap_or(0);
@@ -297,9 +342,39 @@ where
         if cfg.check_side_conditions_every_event {
             side_conditions(&cluster, &format!("after op {oi}"), &mut out).await;
         }
+        for ev in cfg.script.get(oi + 1).cloned().unwrap_or_default() {
+            wall.tick();
+            match ev {
+                Scripted::Flush(c) => {
+                    out.events.push(format!("batch flush of node{c} (scripted)"));
+                    cluster.nodes[c].tick().await;
+                },
+                Scripted::Restart(r) => {
+                    out.events.push(format!("node{r} stops and restarts on its storage (scripted)"));
+                    let old = cluster.nodes.remove(r);
+                    let id = old.id;
+                    let storage = old.stop();
+                    let fresh = Node::start(id, "dc", storage).await;
+                    fresh.set_membership(&layout).await;
+                    cluster.nodes.insert(r, fresh);
+                },
+                Scripted::Jump => {
+                    out.events.push("61 minutes pass (scripted)".to_string());
+                    wall.advance(std::time::Duration::from_secs(61 * 60));
+                },
+                Scripted::Down(d) => {
+                    out.events.push(format!("node{d} becomes unreachable (scripted)"));
+                    datacake_rpc::verif::set_reachable(crate::world::node_addr(d as NodeId + 1), false);
+                },
+                Scripted::Back(d) => {
+                    out.events.push(format!("node{d} becomes reachable again (scripted)"));
+                    datacake_rpc::verif::set_reachable(crate::world::node_addr(d as NodeId + 1), true);
+                },
+            }
+        }
         // extra events in the gap after this operation (not after the last one: the end
         // phase below covers that)
-        if oi + 1 < ops.len() || cfg.faulty_repairs {
+        if oi + 1 < ops.len() || cfg.faulty_repairs || cfg.time_jumps {
             for _ in 0..2 {
                 let n_ticks = n;
                 let n_repairs = n * (n - 1);
@@ -352,6 +427,9 @@ where
     if let Some(d) = down {
         datacake_rpc::verif::set_reachable(crate::world::node_addr(d as NodeId + 1), true);
         out.events.push(format!("node{d} becomes reachable again"));
+    }
+    for d in 0..n {
+        datacake_rpc::verif::set_reachable(crate::world::node_addr(d as NodeId + 1), true);
     }
     end_phase(cfg, &mut cluster, &wall, &chooser, &mut out).await;
     out
@@ -581,6 +659,7 @@ pub fn case_json(cfg: &ExecCfg, ops: &[OpSpec], run: &Run, out: &Outcome) -> J {
         .set("allow_unreachable_node", cfg.allow_unreachable_node)
         .set("faulty_repairs", cfg.faulty_repairs)
         .set("time_jumps", cfg.time_jumps)
+        .set("script", J::Arr(cfg.script.iter().map(|g| J::from(g.iter().map(|e| e.text()).collect::<Vec<_>>())).collect()))
         .set("skew_minutes", cfg.skew_minutes.clone())
         .set("prelude", J::Arr(cfg.prelude.iter().map(op_json).collect()))
         .set("events", out.events.clone())
@@ -695,12 +774,12 @@ pub fn run(tier: Tier) -> i32 {
     let mut summary = vkit::e2::Summary::default();
     let mut blocks_json = Vec::new();
 
-    let two = |mem| ExecCfg { allow_unreachable_node: false, faulty_repairs: false, time_jumps: false, skew_minutes: vec![], fine_grained: false, prelude: vec![], lose_all_direct: false, n_nodes: 2, mem_store: mem, allow_restart: true, check_side_conditions_every_event: false };
+    let two = |mem| ExecCfg { allow_unreachable_node: false, faulty_repairs: false, time_jumps: false, script: vec![], skew_minutes: vec![], fine_grained: false, prelude: vec![], lose_all_direct: false, n_nodes: 2, mem_store: mem, allow_restart: true, check_side_conditions_every_event: false };
     let mut blocks: Vec<Block> = Vec::new();
     let al2 = op_alphabet(2, &[Consistency::None, Consistency::All]);
     let al2_thin: Vec<OpSpec> = al2.iter().copied().filter(|o| !(o.level == Consistency::All && matches!(o.kind, Kind::Put(2) | Kind::Del(2)))).collect();
     let al3 = op_alphabet(3, &[Consistency::None, Consistency::All]);
-    let three = |restart| ExecCfg { allow_unreachable_node: false, faulty_repairs: false, time_jumps: false, skew_minutes: vec![], fine_grained: false, prelude: vec![], lose_all_direct: false, n_nodes: 3, mem_store: false, allow_restart: restart, check_side_conditions_every_event: false };
+    let three = |restart| ExecCfg { allow_unreachable_node: false, faulty_repairs: false, time_jumps: false, script: vec![], skew_minutes: vec![], fine_grained: false, prelude: vec![], lose_all_direct: false, n_nodes: 3, mem_store: false, allow_restart: restart, check_side_conditions_every_event: false };
     if tier.is_thorough() {
         blocks.push(Block { name: "N=2, 2 operations, <=3 deviations", cfg: two(false), histories: sequences(&al2, 2), bound: 3 });
         blocks.push(Block { name: "N=2, 3 operations, <=2 deviations", cfg: two(false), histories: sequences(&al2, 3), bound: 2 });
@@ -716,10 +795,32 @@ pub fn run(tier: Tier) -> i32 {
         let mut lagging3 = three(false);
         lagging3.allow_unreachable_node = true;
         blocks.push(Block { name: "N=3, 3 operations (one key + bulk), one node unreachable, <=2 deviations", cfg: lagging3, histories: sequences(&al3n, 3), bound: 2 });
+        for victim in [1usize, 0] {
+            let other = 1 - victim;
+            for (name, script) in [
+                (
+                    "N=2, 2 operations, sharp driver: one node misses the first operation (unreachable, batch lost), 61 minutes pass, it receives the second one and restarts; <=2 deviations on top",
+                    vec![vec![Scripted::Down(victim)], vec![Scripted::Flush(other), Scripted::Jump, Scripted::Back(victim)], vec![Scripted::Flush(other), Scripted::Restart(victim)]],
+                ),
+                (
+                    "N=2, 2 operations, sharp driver: one node misses the first operation, 61 minutes pass, it receives the second one (no restart); <=2 deviations on top",
+                    vec![vec![Scripted::Down(victim)], vec![Scripted::Flush(other), Scripted::Jump, Scripted::Back(victim)], vec![Scripted::Flush(other)]],
+                ),
+                (
+                    "N=2, 3 operations (thinned), sharp driver: one node misses the first operation, 61 minutes pass, it receives the second, restarts, third operation; <=1 deviation on top",
+                    vec![vec![Scripted::Down(victim)], vec![Scripted::Flush(other), Scripted::Jump, Scripted::Back(victim)], vec![Scripted::Flush(other), Scripted::Restart(victim)], vec![]],
+                ),
+            ] {
+                let three_ops = name.contains("3 operations");
+                let mut sharp = two(false);
+                sharp.script = script;
+                blocks.push(Block { name, cfg: sharp, histories: if three_ops { sequences(&al2_thin, 3) } else { sequences(&al2, 2) }, bound: if three_ops { 1 } else { 2 } });
+            }
+        }
         let mut jumpy = two(false);
         jumpy.allow_unreachable_node = true;
         jumpy.time_jumps = true;
-        blocks.push(Block { name: "N=2, 2 operations, one node unreachable until a chosen moment, restarts, 61-minute jumps between operations, <=4 deviations", cfg: jumpy, histories: sequences(&al2, 2), bound: 4 });
+        blocks.push(Block { name: "N=2, 2 operations, one node unreachable until a chosen moment, restarts, 61-minute jumps between and after operations, <=4 deviations", cfg: jumpy, histories: sequences(&al2, 2), bound: 4 });
         let mut jumpy3 = two(false);
         jumpy3.allow_unreachable_node = true;
         jumpy3.time_jumps = true;
@@ -749,10 +850,25 @@ pub fn run(tier: Tier) -> i32 {
         lagging.allow_restart = false;
         lagging.allow_unreachable_node = true;
         blocks.push(Block { name: "N=2, 2 operations, one node unreachable until a chosen moment (it joins after deletes happened), <=2 deviations", cfg: lagging, histories: sequences(&al2, 2), bound: 2 });
+        for (name, script) in [
+            (
+                "N=2, 2 operations, sharp driver: node1 misses the first operation (unreachable, batch lost), 61 minutes pass, it receives the second one and restarts; <=1 deviation on top",
+                vec![vec![Scripted::Down(1)], vec![Scripted::Flush(0), Scripted::Jump, Scripted::Back(1)], vec![Scripted::Flush(0), Scripted::Restart(1)]],
+            ),
+            (
+                "N=2, 2 operations, sharp driver: node1 misses the first operation, 61 minutes pass, it receives the second one (no restart); <=1 deviation on top",
+                vec![vec![Scripted::Down(1)], vec![Scripted::Flush(0), Scripted::Jump, Scripted::Back(1)], vec![Scripted::Flush(0)]],
+            ),
+        ] {
+            let mut sharp = two(false);
+            sharp.script = script;
+            blocks.push(Block { name, cfg: sharp, histories: sequences(&al2, 2), bound: 1 });
+        }
         let mut jumpy = two(false);
         jumpy.allow_unreachable_node = true;
         jumpy.time_jumps = true;
-        blocks.push(Block { name: "N=2, 2 operations, one node unreachable until a chosen moment, restarts, 61-minute jumps between operations, <=3 deviations", cfg: jumpy, histories: sequences(&al2, 2), bound: 3 });
+        let al2_none = op_alphabet(2, &[Consistency::None]);
+        blocks.push(Block { name: "N=2, 2 operations (level None), one node unreachable until a chosen moment, restarts, 61-minute jumps between and after operations, <=3 deviations", cfg: jumpy, histories: sequences(&al2_none, 2), bound: 3 });
         let mut faulty = two(false);
         faulty.allow_restart = false;
         faulty.faulty_repairs = true;
@@ -766,6 +882,13 @@ pub fn run(tier: Tier) -> i32 {
         blocks.push(Block { name: "N=2, 2 operations, node1's clock 30 min ahead, <=1 deviation", cfg: skewed, histories: sequences(&al2, 2), bound: 1 });
     }
 
+    // debugging aid: VERIF_C01_BLOCKS=<substring> runs only the matching blocks (such a run
+    // is marked as a machinery failure: it decides nothing)
+    let only = std::env::var("VERIF_C01_BLOCKS").ok();
+    if let Some(f) = &only {
+        blocks.retain(|b| b.name.contains(f.as_str()));
+        report.machinery_error(format!("filtered run (VERIF_C01_BLOCKS={f}): {} block(s)", blocks.len()));
+    }
     for b in &blocks {
         let before = summary.executions;
         // histories are independent: explore each with the deviation bound
@@ -827,7 +950,7 @@ pub fn run(tier: Tier) -> i32 {
 
     // ---- concurrency block
     {
-        let ccfg = ExecCfg { allow_unreachable_node: false, faulty_repairs: false, time_jumps: false, skew_minutes: vec![], fine_grained: tier.is_thorough(), prelude: vec![], lose_all_direct: false, n_nodes: 2, mem_store: false, allow_restart: false, check_side_conditions_every_event: false };
+        let ccfg = ExecCfg { allow_unreachable_node: false, faulty_repairs: false, time_jumps: false, script: vec![], skew_minutes: vec![], fine_grained: tier.is_thorough(), prelude: vec![], lose_all_direct: false, n_nodes: 2, mem_store: false, allow_restart: false, check_side_conditions_every_event: false };
         let base = op_alphabet(2, &[Consistency::None, Consistency::All]);
         let mut pairs: Vec<Vec<OpSpec>> = Vec::new();
         for a in &base {
@@ -845,13 +968,14 @@ pub fn run(tier: Tier) -> i32 {
         }
         let before = summary.executions;
         let conc_bound = std::env::var("VERIF_C01_CONC_BOUND").ok().and_then(|v| v.parse().ok()).unwrap_or(tier.pick(3usize, 5));
-        let lossy = ExecCfg { allow_unreachable_node: false, faulty_repairs: false, time_jumps: false, skew_minutes: vec![], fine_grained: false, prelude: vec![], lose_all_direct: true, n_nodes: 2, mem_store: false, allow_restart: false, check_side_conditions_every_event: false };
+        let lossy = ExecCfg { allow_unreachable_node: false, faulty_repairs: false, time_jumps: false, script: vec![], skew_minutes: vec![], fine_grained: false, prelude: vec![], lose_all_direct: true, n_nodes: 2, mem_store: false, allow_restart: false, check_side_conditions_every_event: false };
         // the repair races additionally start from a keyspace that already exists at the source
         // and has not been synchronised yet (otherwise the repairing node would not fetch it)
         let with_prelude = |base: &ExecCfg| ExecCfg {
             allow_unreachable_node: false,
             faulty_repairs: false,
             time_jumps: false,
+            script: vec![],
             skew_minutes: vec![],
             fine_grained: false,
             prelude: vec![OpSpec { node: 1, kind: Kind::Put(2), level: Consistency::None }],
@@ -867,6 +991,9 @@ pub fn run(tier: Tier) -> i32 {
         for p in pairs.iter().filter(|p| p.iter().any(|o| matches!(o.kind, Kind::RepairFrom(_)))) {
             work.push((p.clone(), 2));
             work.push((p.clone(), 3));
+        }
+        if only.is_some() {
+            work.clear();
         }
         if std::env::var("VERIF_C01_ONLY_REPAIR_RACES").is_ok() {
             work.retain(|(p, v)| *v == 3 && matches!(p[1].kind, Kind::Put(1)) && p[1].node == 1);
@@ -976,6 +1103,13 @@ pub fn replay(case: &J) -> i32 {
         allow_unreachable_node: case.get("allow_unreachable_node").and_then(|v| v.as_bool()).unwrap_or(false),
         faulty_repairs: case.get("faulty_repairs").and_then(|v| v.as_bool()).unwrap_or(false),
         time_jumps: case.get("time_jumps").and_then(|v| v.as_bool()).unwrap_or(false),
+        script: case
+            .get("script")
+            .and_then(|v| v.as_arr())
+            .unwrap_or(&[])
+            .iter()
+            .map(|g| g.as_arr().unwrap_or(&[]).iter().filter_map(|e| e.as_str().and_then(Scripted::parse)).collect())
+            .collect(),
         skew_minutes: case.get("skew_minutes").and_then(|v| v.as_arr()).unwrap_or(&[]).iter().filter_map(|v| v.as_u64()).collect(),
         fine_grained: case.get("fine_grained").and_then(|v| v.as_bool()).unwrap_or(false),
         prelude: case.get("prelude").and_then(|v| v.as_arr()).unwrap_or(&[]).iter().filter_map(|o| al_for_prelude.iter().copied().find(|a| op_json(a).as_str() == o.as_str())).collect(),
